@@ -212,7 +212,9 @@ C07_BadResultReported ==
 \* C12: dry runs never write
 C12_DryRunNeverWrites == (flags.diff \/ flags.print) => touched = {} /\ \A i \in 1..N : disk[i] = "orig"
 C12_DescriptionsOnStderrOnly ==
-  \A k \in 1..Len(stderr) : stderr[k].what = "desc" => kinds[stderr[k].f] \in {"match", "generated", "badresult"}
+  /\ \A k \in 1..Len(stderr) : stderr[k].what = "desc" => kinds[stderr[k].f] \in {"match", "generated", "badresult"}
+  \* ("wrongdesc": the description of a change that does not apply to the file it is printed for)
+  /\ \A k \in 1..Len(stderr) : stderr[k].what # "wrongdesc"
 
 \* C16: no half-written files, failures reported
 C16_Atomic == Ended => \A i \in 1..N : disk[i] \in {"orig", "patched", "badpatched"}
